@@ -7,6 +7,7 @@
 //---------------------------------------------------------------------------//
 #pragma once
 
+#include "corecel/math/Algorithms.hh"
 #include "celeritas/Quantities.hh"
 #include "celeritas/phys/InteractionUtils.hh"
 #include "celeritas/phys/Secondary.hh"
@@ -100,9 +101,12 @@ CELER_FUNCTION Interaction IoniFinalStateHelper::operator()(Engine& rng)
     // Calculate the polar angle of the exiting electron
     real_type momentum = std::sqrt(electron_energy_
                                    * (electron_energy_ + 2 * electron_mass_));
-    real_type costheta = electron_energy_
-                         * (inc_energy_ + inc_mass_ + electron_mass_)
-                         / (momentum * inc_momentum_);
+    // (bounded: for a secondary at the kinematic maximum rounding can give a
+    // value slightly above 1, i.e. a NaN direction)
+    real_type costheta = celeritas::min<real_type>(
+        electron_energy_ * (inc_energy_ + inc_mass_ + electron_mass_)
+            / (momentum * inc_momentum_),
+        1);
     CELER_ASSERT(costheta <= 1);
 
     // Sample and save outgoing secondary data
